@@ -860,6 +860,8 @@ std::string plan_to_text(const Plan& p) {
   char b[256];
   o += "engine " + p.engine + "\nbatch " + p.batch + "\ndata " + p.data + "\n";
   snprintf(b, sizeof b, "seed %llu\nrunseed %llu\nlocale %d\nreuse %d\n", (unsigned long long)p.seed, (unsigned long long)p.runseed, p.locale, p.reuse); o += b;
+  if (p.fill) { snprintf(b, sizeof b, "fill %d\n", p.fill); o += b; }
+  if (p.perturb) o += "perturb 1\n";
   snprintf(b, sizeof b, "sched policy=%d param=%d seed=%llu\n", p.sched.policy, p.sched.param, (unsigned long long)p.sched.seed); o += b;
   if (!p.sched.task_events_hint.empty()) {
     o += "hint";
@@ -993,6 +995,8 @@ bool plan_from_text(const std::string& txt, Plan& p, std::string* err) {
     else if (line.rfind("runseed ", 0) == 0) p.runseed = strtoull(line.c_str() + 8, nullptr, 10);
     else if (line.rfind("locale ", 0) == 0) p.locale = atoi(line.c_str() + 7);
     else if (line.rfind("reuse ", 0) == 0) p.reuse = atoi(line.c_str() + 6);
+    else if (line.rfind("fill ", 0) == 0) p.fill = atoi(line.c_str() + 5);
+    else if (line.rfind("perturb ", 0) == 0) p.perturb = atoi(line.c_str() + 8);
     else if (line.rfind("sched ", 0) == 0) {
       for (auto& kv : tokenize(line)) {
         if (kv.first == "policy") p.sched.policy = atoi(kv.second.c_str());
